@@ -992,6 +992,12 @@ impl Wallet {
 
     let amount = decimal.to_integer(entry.divisibility)?;
 
+    ensure!(
+      amount > 0,
+      "cannot send or burn zero `{}`: amount must be greater than zero",
+      spaced_rune,
+    );
+
     let inscribed_outputs = self
       .inscriptions()
       .keys()
